@@ -115,9 +115,11 @@ fn vp_native_target_and_host_matrix() {
     } } }
     let proxies: [Option<&str>; 3] = [None, Some("http://proxy.test:3128"), Some("http://pu:pp@proxy.test:3128")];
     let mut cases = 0u64;
-    for u in urls.iter().map(|s| s.as_str()) { for p in proxies {
-        let mut req = crate::RequestBuilder::new(http::Method::GET, u).prepare();
-        let url = req.url().clone();
+    // the request may have been prepared for another URL than the one of this hop (redirects): the target form follows the hop
+    for u in urls.iter().map(|s| s.as_str()) { for p in proxies { for orig in [None, Some("http://orig.test/o?first=1"), Some("https://orig.test:8443/o")] {
+        if orig.is_some() && (u.len() % 7 != 0) { continue; }   // a seventh of the shapes for the cross-scheme hops keeps the run short
+        let mut req = crate::RequestBuilder::new(http::Method::GET, orig.unwrap_or(u)).prepare();
+        let url = Url::parse(u).unwrap();
         let proxy = p.map(|s| Url::parse(s).unwrap());
         let host_url = match (url.scheme(), &proxy) { ("http", Some(px)) => px.clone(), _ => url.clone() };
         set_host(&mut req.headers, &host_url).unwrap();
@@ -127,16 +129,16 @@ fn vp_native_target_and_host_matrix() {
         let origin_form = { let mut t = url.path().to_string(); if let Some(q) = url.query() { t.push('?'); t.push_str(q); } t };
         if proxy.is_some() && url.scheme() == "http" {
             let mut abs = url.clone(); abs.set_fragment(None); let _ = abs.set_username(""); let _ = abs.set_password(None);
-            assert_eq!(r.target, abs.as_str(), "absolute-form for {} via proxy", u);
+            assert_eq!(r.target, abs.as_str(), "absolute-form for {} via proxy (request prepared for {:?})", u, orig);
             assert!(!r.target.contains('#') && !r.target.contains('@'));
         } else {
-            assert_eq!(r.target, origin_form, "origin-form for {}", u);
+            assert_eq!(r.target, origin_form, "origin-form for {} (proxy {:?}, request prepared for {:?})", u, p, orig);
         }
         let hosts = header(&r, "host");
         assert_eq!(hosts.len(), 1, "exactly one Host field");
         let want_host = match host_url.port() { Some(pt) => format!("{}:{}", host_url.host_str().unwrap(), pt), None => host_url.host_str().unwrap().to_string() };
         assert_eq!(hosts[0], want_host.as_bytes(), "Host for {} (proxy {:?})", u, p);
-    } }
+    } } }
     println!("VP-NATIVE target_and_host_matrix cases={}", cases);
 }
 
